@@ -12,7 +12,7 @@ pub fn def() -> CheckDef {
         meta: CheckMeta {
             id: "C06",
             level: "exploration",
-            rule: "generated histories biased to rollbacks of large write transactions (bucket deletes, overflow values, hundreds of puts), read-only transactions attempting every mutator at every nesting level, reopen cycles and failing calls; 1 in 20 histories at page size 5000 or 1032 from a 4-page file, so that the file has grown and its length is not a whole number of pages. Oracles: (i) whole-file hash identical before/after a dropped write tx, a read tx, and close+reopen+read; (ii) every mutator on a reader returns ReadOnlyTx and later dumps are unchanged; (iii) after any call that returned an error the full in-tx dump equals the unchanged model; (iv) all later transactions return what the model (which never saw the abandoned work) returns and the independent parser's exact page accounting holds after every later commit. Non-trivial = rollback of a tx with >= 10 mutations or a bucket delete followed by a state-changing commit, or a read tx attempting >= 5 distinct mutator kinds. Distinct = hash of the case.",
+            rule: "generated histories biased to rollbacks of large write transactions (bucket deletes, overflow values, hundreds of puts), read-only transactions attempting every mutator at every nesting level, reopen cycles and failing calls; 1 in 20 histories at page size 5000 or 1032 from a 4-page file, so that the file has grown and its length is not a whole number of pages; 1 in 10 with strict mode or map-populate on. Oracles: (i) whole-file hash identical before/after a dropped write tx, a read tx, and close+reopen+read; (ii) every mutator on a reader returns ReadOnlyTx and later dumps are unchanged; (iii) after any call that returned an error the full in-tx dump equals the unchanged model; (iv) all later transactions return what the model (which never saw the abandoned work) returns and the independent parser's exact page accounting holds after every later commit. Non-trivial = rollback of a tx with >= 10 mutations or a bucket delete followed by a state-changing commit, or a read tx attempting >= 5 distinct mutator kinds. Distinct = hash of the case.",
             assumptions: &[
                 "files are compared by a 64-bit hash of all bytes plus length",
                 "byte-identical files across two separate runs are not asserted (page ids depend on HashMap order)",
@@ -46,6 +46,11 @@ fn shard(ctx: &ShardCtx, known: &Known) -> ShardOut {
             h.cfg = Cfg { pagesize: 5000, num_pages: 4, strict: false, populate: false };
         } else if r == 1 {
             h.cfg = Cfg { pagesize: 1032, num_pages: 4, strict: false, populate: false };
+        } else if r == 2 || r == 3 {
+            // opening (and everything else) with strict mode / map-populate must not write either
+            h.cfg.strict = true;
+        } else if r == 4 || r == 5 {
+            h.cfg.populate = true;
         }
         h
     });
